@@ -18,7 +18,9 @@ from harness.common import Ctx, driver, pmap, parse_rat, use_repo, val_s
 
 def make_base(seed):
     r = np.random.RandomState(seed)
-    sc = scen.gen(seed, rev=False, layout="sparse", numrec=int(r.choice([1, 2, 3])), period=int(r.choice([1, 2, 3])),
+    # every seventh uninterrupted run goes backwards in time (its files hold descending times; a restart continues from the *last*
+    # record of a file, which then is the earliest)
+    sc = scen.gen(seed, rev=bool(seed % 7 == 5), layout="sparse", numrec=int(r.choice([1, 2, 3])) if seed % 7 != 5 else int(r.choice([2, 2, 3])), period=int(r.choice([1, 2, 3])),
                   nsteps=int(r.randint(5, 12)), kills=True, continuous=bool(r.rand() < 0.5), speed=float(r.choice([0.25, 1.0, 2.0])),
                   pvars=bool(r.rand() < 0.7))
     if seed % 3 == 0:
@@ -27,7 +29,7 @@ def make_base(seed):
         sc["reference"] = lab.tstr(sc["reference_s"])
     if seed % 4 == 3 and sc["fsteps"][-1] > sc["nsteps"]:      # (the forcing must cover the longer window)
         sc["stop_extra"] = scen.DT // 2      # the run is N + 1/2 time steps long: N steps, before and after a restart
-    if seed % 4 == 1:
+    if seed % 4 == 1 and not sc["rev"]:
         # forcing frames between two model times (dt does not divide the frame times): a frame belongs to the step
         # that holds it, before and after a restart alike
         sc["frame_off"] = scen.DT // 2
@@ -35,6 +37,9 @@ def make_base(seed):
         # depth is stored packed (16-bit integers with scale_factor and add_offset; the depths of these set-ups are
         # quarters of a metre, so nothing is lost): a restart reads what the file means, not what it stores
         sc["_pack"] = True
+    if seed % 5 == 3:
+        # the flags `alive` and `active` are written to the output as well (8-bit integers), so a restart reads them back (F25)
+        sc["out_flags"] = True
     if sc["continuous"]:
         # a file entry that is not a whole number of release periods after the first one: an uninterrupted run
         # never reaches it (ticks are counted from the first file time); a restarted run must not either
@@ -103,7 +108,7 @@ def run_base_and_restarts(sc):
             fk = out["files"][k]
             nxt = out["files"][k + 1]["name"]
             at, _ = abs_times(fk)
-            rstep = int(round((at[-1] - sc["start"]) / scen.DT))
+            rstep = abs(int(round((at[-1] - sc["start"]) / scen.DT)))
             scw = copy.deepcopy(sc)
             # the scripted IBM counts steps from the start of *its* run
             scw["kill"] = {str(int(s_) - rstep): v for s_, v in sc["kill"].items() if int(s_) - rstep >= 0}
@@ -141,7 +146,7 @@ def warm_request(sc, g, k, base_recs=None):
     """The driver request for the run warm-started from output file `k` of the uninterrupted run `g`."""
     fk = g["files"][k]
     at, _ = abs_times(fk)
-    rstep = int(round((at[-1] - sc["start"]) / scen.DT))
+    rstep = abs(int(round((at[-1] - sc["start"]) / scen.DT)))
     if base_recs is None:
         base_recs = records_of(g["files"], sc)
     last = base_recs[at[-1]]
@@ -189,7 +194,7 @@ def run(ctx: Ctx):
             k = rs["k"]
             fk = g["files"][k]
             at, _ = abs_times(fk)
-            rstep = int(round((at[-1] - sc["start"]) / scen.DT))
+            rstep = abs(int(round((at[-1] - sc["start"]) / scen.DT)))
             max_pid_file = max([p for f in g["files"][:k + 1] for p in f["pid"]] + [-1])
             # a particle released and dead before it was ever recorded: the file cannot know its pid was used
             unrecorded = npid_at.get(rstep, 0) > max(fk["pid"] + [-1]) + 1
@@ -201,7 +206,7 @@ def run(ctx: Ctx):
                 ctx.violation("failing-input", "restart", case, dict(status=rs["status"]), tags=tags)
                 continue
             wrecs = records_of(rs["files"], sc)
-            later = {t: r for t, r in base_recs.items() if t > at[-1]}
+            later = {t: r for t, r in base_recs.items() if (t < at[-1] if sc["rev"] else t > at[-1])}      # later in the direction of the run
             bad = None
             if sorted(wrecs) != sorted(later):
                 bad = dict(what="record times after the restart", restarted=sorted(wrecs), uninterrupted=sorted(later))
